@@ -267,5 +267,21 @@ class Builder:
         f = self.hole("F", fl, F_SIGMA)
         self.expect.append(("ImplicitComment", f))
 
+    def refchain(self):
+        """@string{K1 = {v}} @string{K2 = R2} @x{k, f = R3}: R2/R3 are one symbolic character over {a,b,x}, so a field can
+        name a string whose own value is the bare name of another string (resolution is one level deep)"""
+        self.lit("@string{")
+        k1 = self.hole("K", 1, "ab")
+        self.lit(" = {v}}\n@string{")
+        k2 = self.hole("K", 1, "ab")
+        self.lit(" = ")
+        r2 = self.hole("SV", 1, "abx")
+        self.lit("}\n@aa{k, f = ")
+        r3 = self.hole("V", 1, "abx")
+        self.lit("}")
+        self.expect.append(("String", k1, None))
+        self.expect.append(("String", k2, r2))
+        self.expect.append(("Entry", None, None, [(None, r3)]))
+
     def sep(self, n=1):
         self.hole("W", n, W_SIGMA)
